@@ -36,6 +36,8 @@ var menu = [][]mapref.DP{
 	// a set series without members (what a forwarder sends for an idle set, and what an aggregator holds
 	// after a flush) carrying the newest timestamp
 	{{Type: "s", Name: "s", Empty: true, TS: 4}},
+	// a sampled timer of an existing name under another tag set, after an untagged datapoint in the same map
+	{{Type: "ms", Name: "t", Value: 5, Rate: 1, TS: 1}, {Type: "ms", Name: "t", Value: 7, Rate: 0.25, TS: 1, Tags: []string{"x"}}},
 }
 
 func toMetric(d mapref.DP) *gostatsd.Metric {
